@@ -27,6 +27,7 @@ class Gen:
         self.rng = rng
         self.next = 0
         self.i1 = set()
+        self.templates = []
 
     def fresh(self, is_i1=False):
         v = self.next
@@ -53,6 +54,7 @@ class Gen:
         rng = self.rng
         scope = list(scope)
         ops = []
+        outer_templates, self.templates = self.templates, []      # templates are per block (operands in scope)
         for _ in range(n):
             r = rng.random()
             conds = [v for v in scope if v in self.i1]
@@ -77,7 +79,17 @@ class Gen:
                 nb = rng.choice([0, 1])
                 op["regions"] = [self.region(scope, depth - 1, [self.fresh() for _ in range(nb)], "term",
                                              rng.choice([0, 1]))]
-            elif r < 0.34 and ops and rng.random() < 0.9:
+            elif depth > 0 and r < 0.30:
+                # a PURE multi-region op (scf.if on an i1 in scope, or a test.pureop / test.op_with_memread with two
+                # regions) followed later by near-copies of it: same name / operands / properties / result types,
+                # regions copied with fresh values and then left identical, or changed in exactly ONE region
+                # (first, or a later one) -- CSE must merge the identical copy and only that one
+                op = self.multi_region_pure(scope, depth, conds)
+                self.templates.append(op)
+            elif r < 0.42 and self.templates and rng.random() < 0.9:
+                op = self.near_copy(rng.choice(self.templates), scope)
+                op["_watch"] = True
+            elif r < 0.50 and ops and rng.random() < 0.9:
                 # an exact duplicate of an earlier op of this block (same kind/key/types/operands)
                 src = rng.choice([o for o in ops if not o["regions"]] or [None])
                 if src is None:
@@ -91,7 +103,75 @@ class Gen:
             scope += op["res"]
         ops.append({"kind": term_kind, "key": 0, "rtys": [], "args": self.pick_typed(scope, nyield), "res": [],
                     "regions": []})
+        self.templates = outer_templates
         return ops
+
+    # ---- pure multi-region ops and their near-copies
+    def pure_region(self, scope, bargs, term_kind, nyield):
+        rng = self.rng
+        sc = list(scope) + bargs
+        ops = []
+        for _ in range(rng.randint(1, 3)):
+            o = self.leaf(sc, "pure")
+            if not o["rtys"]:
+                o["rtys"], o["res"] = [False], [self.fresh()]
+            ops.append(o)
+            sc += o["res"]
+        ys = self.pick_typed(sc, nyield)
+        ops.append({"kind": term_kind, "key": 0, "rtys": [], "args": ys, "res": [], "regions": []})
+        return {"bargs": bargs, "ops": ops}
+
+    def multi_region_pure(self, scope, depth, conds):
+        rng = self.rng
+        if conds and rng.random() < 0.65:
+            ny = rng.choice([1, 1, 2])
+            return {"kind": "if", "key": 0, "rtys": [False] * ny, "args": [rng.choice(conds)],
+                    "res": [self.fresh() for _ in range(ny)],
+                    "regions": [self.pure_region(scope, [], "yield", ny), self.pure_region(scope, [], "yield", ny)]}
+        op = self.leaf(scope, rng.choice(["pure", "pure", "read"]))
+        if not op["rtys"]:
+            op["rtys"], op["res"] = [False], [self.fresh()]
+        op["key"] += 4                      # two-region test ops have their own keys (see the note above)
+        op["regions"] = [self.pure_region(scope, [], "term", 1), self.pure_region(scope, [], "term", 1)]
+        return op
+
+    def clone_op(self, o, m):
+        new = {"kind": o["kind"], "key": o["key"], "rtys": list(o["rtys"]), "args": [m.get(a, a) for a in o["args"]],
+               "res": [], "regions": []}
+        for r in o["regions"]:
+            if r is None:
+                new["regions"].append(None)
+                continue
+            bargs = []
+            for b in r["bargs"]:
+                m[b] = self.fresh(b in self.i1)
+                bargs.append(m[b])
+            new["regions"].append({"bargs": bargs, "ops": [self.clone_op(x, m) for x in r["ops"]]})
+        for v, t in zip(o["res"], o["rtys"]):
+            m[v] = self.fresh(t)
+            new["res"].append(m[v])
+        return new
+
+    def near_copy(self, tmpl, scope):
+        rng = self.rng
+        op = self.clone_op(tmpl, {})
+        how = rng.choice(["same", "first", "later", "later"])
+        if how == "same":
+            return op
+        j = 0 if how == "first" else rng.randrange(1, len(op["regions"]))
+        reg = op["regions"][j]
+        leaves = [x for x in reg["ops"][:-1] if not x["regions"]]
+        outer = [v for v in scope if v not in self.i1]
+        if leaves and rng.random() < 0.6:
+            x = rng.choice(leaves)
+            x["key"] = 1 - x["key"] if x["key"] in (0, 1) else x["key"] + 1       # a different constant / op
+        elif reg["ops"][-1]["args"] and outer:
+            t = reg["ops"][-1]
+            i = rng.randrange(len(t["args"]))
+            cand = [v for v in outer if v != t["args"][i]]
+            if cand:
+                t["args"][i] = rng.choice(cand)                                # yields another value
+        return op
 
     def pick_typed(self, scope, n):
         i32s = [v for v in scope if v not in self.i1]
@@ -116,6 +196,10 @@ def gen_program(rng, size=None):
     ops = g.block([a, b], 2, n, "ret", rng.randint(1, 3))
     if not ops[-1]["args"]:
         ops[-1]["args"] = [a]
+    # the results of the near-copies (and of what they copy) are returned, so a wrong merge is observable
+    for o in ops[:-1]:
+        if o.get("_watch") or (o["regions"] and o["kind"] in ("if", "pure", "read") and len(o["regions"]) > 1):
+            ops[-1]["args"] += [v for v in o["res"] if v not in g.i1][:2]
     return {"bargs": [a, b], "ops": ops, "i1": sorted(g.i1)}
 
 
@@ -302,8 +386,9 @@ def H(*xs):
 class Sem:
     """uninterpreted-but-concrete semantics of the test ops respecting their declared memory effects"""
 
-    def __init__(self, eff_of_k):
+    def __init__(self, eff_of_k, force=None):
         self.eff = eff_of_k
+        self.force = force          # None: scf.if follows its condition; 0 / 1: every scf.if takes else / then
 
     def region(self, r, env, bvals, mem):
         if r == 0 or r is None:
@@ -319,7 +404,8 @@ class Sem:
                 return av, mem
             e = self.eff(k)
             if e == 3:      # scf.if: run the selected region, results = yielded values, memory from the region
-                which = regions[0] if av[0] & 1 else regions[1]
+                take = (av[0] & 1) if self.force is None else self.force
+                which = regions[0] if take else regions[1]
                 ys, mem = self.region(which, env, [], mem)
                 vals = ys
             else:
@@ -362,12 +448,14 @@ def holds(prog, res):
         return False, "cse raised / left unverifiable IR on a valid program"
     intern_prog(prog)
     before, after = to_dump(prog), impl_full(prog)
-    sem = Sem(lambda k: k % 8)
-    for inputs in ([0, 0], [1, 1], [12345, 0], [7, 1]):
-        r1 = sem.region(before, {}, inputs, 99)
-        r2 = sem.region(after, {}, inputs, 99)
-        if r1 != r2:
-            return False, (f"on inputs {inputs} the function returned/left memory {r1} before cse and {r2} after")
+    for force in (None, 0, 1):          # both branches of every scf.if are exercised
+        sem = Sem(lambda k: k % 8, force)
+        for inputs in ([0, 0], [1, 1], [12345, 0], [7, 1]):
+            r1 = sem.region(before, {}, inputs, 99)
+            r2 = sem.region(after, {}, inputs, 99)
+            if r1 != r2:
+                return False, (f"on inputs {inputs} (scf.if branches forced: {force}) the function returned/left "
+                               f"memory {r1} before cse and {r2} after")
     return True, ""
 
 
